@@ -13,7 +13,7 @@ from sim import devices
 from sim.canon import Log, dec_table
 from sim.catalogue import RECIPES, NAMES
 from sim.core import outcome
-from sim.devices import SimSourceError, SimDiskFull
+from sim.devices import SimSourceError, SimDiskFull, SOURCE_ERROR_KINDS
 from sim.gen import gen_table
 from sim.loader import load_petl
 from sim.sched import Sched, Violation, gen_schedule
@@ -96,7 +96,8 @@ def gen_case(rng, tier, g):
     if faults < 0.3:
         si = rng.randrange(max(rec.nsrc, 1))
         n = len(tables[si]) - 1
-        extra.append(['ARM', si, rng.choice([0, 1, 2, n // 2, n, n + 1]), 1])
+        extra.append(['ARM', si, rng.choice([0, 1, 2, n // 2, n, n + 1]), 1,
+                      rng.choice(SOURCE_ERROR_KINDS)])
     elif faults < 0.45:
         extra.append(['DISKFULL', rng.choice([0, 1, 10, 40, 100, 200, 400])])
     for op in extra:
@@ -266,7 +267,8 @@ def _history(e, case, stack, expected, td, sb, ctl, log, probes, label,
                 k = op[0]
                 if k == 'ARM':
                     if op[1] < len(w.s):
-                        w.s[op[1]].arm(op[2], passes=op[3])
+                        w.s[op[1]].arm(op[2], passes=op[3],
+                                        kind=op[4] if len(op) > 4 else 'plain')
                         log.add('step', op)
                 elif k == 'DISKFULL':
                     ctl.budget = op[1]
